@@ -198,14 +198,63 @@ def effective_transport(op):
     return "mosek"
 
 
+def edit_ops(rng, b, s, bias=None):
+    """Edits of the model between two solves (all keep it bounded and feasible)."""
+    ops = []
+    pts = [p for p in b.points if p]
+    metrics = b.info.get("metrics") or []
+    kind = rng.choice(["metric", "metric", "cons", "lmi", "func_cons", "part_cons", "remove_cons", "more_samples"])
+    if bias and rng.random() < 0.6:
+        kind = bias
+    tag = "ed%d_" % s
+    if kind == "metric" and metrics:
+        e = tag + "m"
+        ops.append({"op": "elin", "out": e, "terms": [[metrics[0], float("%.3g" % rng.uniform(0.3, 2.0))]],
+                    "const": float("%.2g" % rng.uniform(0, 0.05))})
+        ops.append({"op": "metric", "P": b.P, "e": e})
+    elif kind == "cons" and pts:
+        e = tag + "e"
+        ops.append({"op": "sq", "out": e, "a": rng.choice(pts)})
+        ops.append({"op": "cons", "out": tag + "c", "lhs": e, "rel": "<=", "rhs": 8e3, "target": b.P})
+    elif kind == "lmi" and metrics:
+        sname = tag + "s"
+        ops.append({"op": "newexpr", "out": sname})
+        ops.append({"op": "psd", "out": tag + "M", "entries": [[metrics[0], sname], [sname, 1.0]], "target": b.P})
+    elif kind == "func_cons" and pts and b.info.get("main_f"):
+        e = tag + "e"
+        ops.append({"op": "sq", "out": e, "a": rng.choice(pts)})
+        ops.append({"op": "cons", "out": tag + "c", "lhs": e, "rel": "<=", "rhs": 9e3, "target": b.info["main_f"]})
+    elif kind == "part_cons" and pts and b.parts:
+        e = tag + "e"
+        ops.append({"op": "sq", "out": e, "a": rng.choice(pts)})
+        ops.append({"op": "cons", "out": tag + "c", "lhs": e, "rel": "<=", "rhs": 9.5e3, "target": b.parts[0]})
+    elif kind == "remove_cons":
+        red = [o["out"] for o in b.ops if o["op"] == "cons" and o.get("target") == b.P and o.get("how") != "initial"]
+        if red:
+            ops.append({"op": "edit", "P": b.P, "what": "remove_constraint", "c": rng.choice(red)})
+    elif kind == "more_samples" and pts and b.info.get("main_f"):
+        # one more evaluation of the main function (at an existing or a fresh point); for a linear operator
+        # also one more evaluation of its transpose
+        q = tag + "q"
+        ops.append({"op": "newpoint", "out": q})
+        ops.append({"op": "oracle", "out": [tag + "g", tag + "v"], "f": b.info["main_f"], "x": rng.choice(pts + [q])})
+        if b.info.get("cls") == "LinearOperator":
+            ops.append({"op": "gradient", "out": tag + "gt", "f": b.info["main_f"] + "T", "x": q})
+            ops.append({"op": "sq", "out": tag + "qe", "a": q})
+            ops.append({"op": "cons", "out": tag + "qc", "lhs": tag + "qe", "rel": "<=", "rhs": 1.0, "target": b.P})
+    return ops
+
+
 def gen_session(rng, tier, peer_mode=None, nsolves=None, allow_mosek=True, allow_heuristic=False, weights=None,
-                decorations=None, evals=True, class_duals=False, template=None, allow_decor=None, n=None):
+                decorations=None, evals=True, class_duals=False, template=None, allow_decor=None, n=None, edits=True, edit_bias=None):
     b = templates.build_model(rng, template=template, weights=weights, decorations=decorations,
                               allow_decor=allow_decor, n=n)
     ops = list(b.ops)
     peer_mode = peer_mode or rng.choice(["tagged", "tagged", "real"])
     nsolves = nsolves if nsolves is not None else rng.choice([1, 1, 1, 2])
     for s in range(nsolves):
+        if s > 0 and edits and rng.random() < (0.9 if edit_bias else 0.6):
+            ops += edit_ops(rng, b, s, bias=edit_bias)
         ops.append(draw_solve(rng, b.P, "tau%d" % s, peer_mode=peer_mode, allow_mosek=allow_mosek,
                               allow_heuristic=allow_heuristic))
         if class_duals:
